@@ -104,6 +104,63 @@ def cross_call_state(m) -> list[tuple]:
     return out
 
 
+def infrastructure(ctx: Ctx, oid: str):
+    """The shared result type every obligation about verdicts reads through: field order and defaults of `Result`
+    (publication sites are resolved positionally), the meaning of `ok`, the members of `Status`, and the contract of
+    `report_progress` (a stop is requested only by an explicit True at a reporting interval)."""
+    m = ctx.repo.module("types")
+    rc = m.classes.get("Result")
+    st = m.classes.get("Status")
+    ctx.require(rc is not None and st is not None, "solvor/types.py no longer defines Result and Status")
+    fields = [(ast.unparse(n.target), ast.unparse(n.value) if n.value is not None else None) for n in rc.body if isinstance(n, ast.AnnAssign)]
+    want = [("solution", None), ("objective", None), ("iterations", "0"), ("evaluations", "0"), ("status", "Status.OPTIMAL"), ("error", "None"), ("solutions", "None")]
+    ctx.ob(oid, "R18 table", None, "Result(solution, objective, iterations=0, evaluations=0, status=Status.OPTIMAL, error=None, solutions=None): field order and defaults", fields == want, f"{fields}: every solver builds its results positionally, and a result without an explicit status is read as OPTIMAL", rel=m.rel, fname="Result", node=rc)
+    members = [ast.unparse(n.targets[0]) for n in st.body if isinstance(n, ast.Assign)]
+    ctx.ob(oid, "R18 table", None, "Status has the members OPTIMAL, FEASIBLE, INFEASIBLE, UNBOUNDED, MAX_ITER", members == ["OPTIMAL", "FEASIBLE", "INFEASIBLE", "UNBOUNDED", "MAX_ITER"], f"{members}", rel=m.rel, fname="Status", node=st)
+    okp = m.funcs.get("Result.ok")
+    ctx.ob(oid, "R18 table", okp, "Result.ok is true exactly for OPTIMAL and FEASIBLE", okp is not None and "return self.status in (Status.OPTIMAL, Status.FEASIBLE)" in ast.unparse(okp.node), "", node=okp.node if okp else rc, rel=m.rel, fname="Result.ok")
+    h = ctx.repo.module("utils.helpers")
+    rp = h.funcs.get("report_progress")
+    ctx.require(rp is not None, "report_progress vanished from solvor/utils/helpers.py")
+    t = ast.unparse(rp.node)
+    ctx.ob(oid, "R18 table", rp, "report_progress calls the callback only at a reporting interval and asks for a stop only when it returned True", "if not (on_progress and progress_interval > 0 and (iteration % progress_interval == 0)):\n        return False" in t and "return on_progress(progress) is True" in t and "progress = Progress(iteration, current_obj, best_obj if best_obj != current_obj else None, evals)" in t, "", node=rp.node)
+
+
+VALIDATORS = {
+    # validator: the tests under which it rejects (a valid input must pass, an invalid one must be stopped)
+    "check_matrix_dims": ["if not A:\n        raise ValueError", "n = len(c)\n    m = len(b)", "if len(A) != m:\n        raise ValueError", "for i, row in enumerate(A):\n        if len(row) != n:\n            raise ValueError"],
+    "check_sequence_lengths": ["if not seqs:\n        return 0", "if expected is None:\n        expected = len(seqs[0][0])", "for seq, name in seqs:\n        if len(seq) != expected:\n            raise ValueError", "return expected"],
+    "check_bounds": ["for i, (lo, hi) in enumerate(bounds):\n        if lo > hi:\n            raise ValueError", "return n"],
+    "check_positive": ["if value <= 0:\n        raise ValueError"],
+    "check_non_negative": ["if value < 0:\n        raise ValueError"],
+    "check_in_range": ["if inclusive:\n        if not low <= value <= high:\n            raise ValueError", "elif not low < value < high:\n        raise ValueError"],
+    "check_graph_nodes": ["for node, name in nodes:\n        if node not in graph:\n            raise ValueError"],
+    "check_integers_valid": ["if not isinstance(idx, int):\n            raise TypeError", "if idx < 0 or idx >= n_vars:\n            raise ValueError", "if idx in seen:\n            raise ValueError", "seen.add(idx)"],
+    "check_edge_nodes": ["for i, (u, v, _) in enumerate(edges):\n        if u < 0 or u >= n_nodes:\n            raise ValueError", "if v < 0 or v >= n_nodes:\n            raise ValueError"],
+}
+
+
+def validators_used(ctx: Ctx, mods, oid: str):
+    """every validator a function of the anchor files calls rejects exactly the documented inputs"""
+    vm = ctx.repo.module("utils.validate")
+    used = set()
+    for m in mods:
+        for q in sorted(m.funcs):
+            for n in m.funcs[q].own_nodes():
+                if isinstance(n, ast.Call) and isinstance(n.func, ast.Name) and n.func.id in VALIDATORS:
+                    used.add(n.func.id)
+    for name in sorted(used):
+        f = vm.funcs.get(name)
+        if f is None:
+            ctx.ob(oid, "R18 table", None, f"validator {name} exists", False, "", rel=vm.rel, fname=name)
+            continue
+        t = ast.unparse(f.node)
+        missing = [fr.split("\n")[0] for fr in VALIDATORS[name] if fr not in t]
+        raises = sum(1 for x in ast.walk(f.node) if isinstance(x, ast.Raise))
+        want_r = sum(fr.count("raise ") for fr in VALIDATORS[name])
+        ctx.ob(oid, "R18 table", f, f"{name} rejects exactly the documented inputs", not missing and raises == want_r, (f"not found: {missing[:2]}; " if missing else "") + f"{raises} raise statement(s), {want_r} expected: a validator that rejects a valid input turns a correct call into an exception, one that lets an invalid input through voids the solver's preconditions", node=f.node)
+
+
 def generic_sweeps(ctx: Ctx, stutter: bool = True, skip_stutter_modules: tuple = ()):
     ctx.sweeps_done = True
     mods = anchor_modules(ctx)
@@ -180,4 +237,6 @@ def generic_sweeps(ctx: Ctx, stutter: bool = True, skip_stutter_modules: tuple =
                 ctx.ob(g + "6", "R38 NO-IMPLICIT-NONE", f, "a function that returns values returns one on every path", False, "some path runs off the end of the function and returns None where callers expect a value", node=f.node)
     ctx.ob(g + "5", "R37 UNDEFINED-NAME", None, "every name read in the anchor files is bound somewhere", n_undef == 0, "", rel=mods[0].rel, fname="<anchor files>")
     ctx.ob(g + "6", "R38 NO-IMPLICIT-NONE", None, "no value-returning function of the anchor files can run off its end", n_none == 0, "", rel=mods[0].rel, fname="<anchor files>")
+    infrastructure(ctx, g + "7")
+    validators_used(ctx, mods, g + "7")
     ctx.count("functions swept (R31/R22)", n_funcs)
